@@ -345,7 +345,34 @@ theorem step_connected (c : C) (ev : Ev) (hc : c.connected = true) : (step c ev)
   | peer p => rw [step_peer c hc, peer_connected]; exact hc
   | apiEarlyAck call ack =>
     simp only [step, hc, Bool.not_true, Bool.false_eq_true, ↓reduceIte]
-    rw [apiRegister_connected, peer_connected, apiWrite_connected]; exact hc
+    rw [peer_connected, apiRegister_connected, apiWrite_connected]; exact hc
+
+/-- **the acknowledgement inside the window is the call followed by the packet**: `service.ackmu`
+makes the acknowledgement wait for the registration, so the composite event is exactly `.api call`
+followed by `.peer ack` - state and outputs, connected or not -/
+theorem step_early (c : C) (call : Api) (ack : Packet) :
+    step c (.apiEarlyAck call ack) =
+      ((step (step c (.api call)).1 (.peer ack)).1,
+       (step c (.api call)).2 ++ (step (step c (.api call)).1 (.peer ack)).2) := by
+  by_cases hc : c.connected = true
+  · have hc1 : (step c (.api call)).1.connected = true := step_connected c (.api call) hc
+    rw [step_peer _ hc1, step_api c hc]
+    simp only [step, hc, Bool.not_true, Bool.false_eq_true, ↓reduceIte, List.append_assoc]
+  · have hc' : c.connected = false := by simpa using hc
+    simp [step, hc']
+
+def isEarly : Ev → Bool
+  | .apiEarlyAck _ _ => true
+  | _ => false
+
+/-- a property of the state kept by every simple event is kept by the composite event too -/
+theorem step_inv_of_basic {P : C → Prop} (hb : ∀ c ev, isEarly ev = false → P c → P (step c ev).1)
+    (c : C) (ev : Ev) (h : P c) : P (step c ev).1 := by
+  cases ev with
+  | apiEarlyAck call ack => rw [step_early]; exact hb _ (.peer ack) rfl (hb c (.api call) rfl h)
+  | connect a => exact hb c _ rfl h
+  | api call => exact hb c _ rfl h
+  | peer p => exact hb c _ rfl h
 
 theorem runState_connected (c : C) (evs : List Ev) (hc : c.connected = true) : (runState c evs).connected = true := by
   induction evs generalizing c with
@@ -357,14 +384,13 @@ theorem runState_connected (c : C) (evs : List Ev) (hc : c.connected = true) : (
 /-- requests newly put in flight in queue `k` by one event -/
 def stepAccepted (k : Kind) (c : C) : Ev → List Req
   | .api call => if c.connected then regAccepted k (apiWrite c call).1 (apiWrite c call).2.2 else []
-  | .apiEarlyAck call ack =>
-    if c.connected then regAccepted k (peer (apiWrite c call).1 ack).1 (apiWrite c call).2.2 else []
+  | .apiEarlyAck call _ => if c.connected then regAccepted k (apiWrite c call).1 (apiWrite c call).2.2 else []
   | _ => []
 
 /-- requests of queue `k` handed back (their completions fired) by one event -/
 def stepReleased (k : Kind) (c : C) : Ev → List Req
   | .peer p => if c.connected then peerReleased k c p else []
-  | .apiEarlyAck call ack => if c.connected then peerReleased k (apiWrite c call).1 ack else []
+  | .apiEarlyAck call ack => if c.connected then peerReleased k (step c (.api call)).1 ack else []
   | _ => []
 
 def accepted (k : Kind) (c : C) : List Ev → List Req
@@ -393,12 +419,11 @@ theorem step_conservation (k : Kind) (c : C) (ev : Ev) :
       simp only [stepReleased, stepAccepted, hc, ↓reduceIte, List.append_nil]
       exact peer_conservation k c p
     | apiEarlyAck call ack =>
-      simp only [step, stepReleased, stepAccepted, hc, Bool.not_true, Bool.false_eq_true, ↓reduceIte,
-        apiRegister_queue]
-      have := peer_conservation k (apiWrite c call).1 ack
-      rw [apiWrite_queue] at this
-      simp only [List.map_append] at this ⊢
-      rw [← List.append_assoc, this]
+      have hc1 : (step c (.api call)).1.connected = true := step_connected c (.api call) hc
+      rw [step_early, step_peer _ hc1]
+      simp only [stepReleased, stepAccepted, hc, ↓reduceIte]
+      rw [peer_conservation k (step c (.api call)).1 ack, step_api c hc]
+      simp only [apiRegister_queue, apiWrite_queue]
   · have hc' : c.connected = false := by simpa using hc
     cases ev with
     | connect a =>
@@ -424,23 +449,18 @@ theorem run_conservation (k : Kind) (c : C) (evs : List Ev) :
 
 /-! ### completions fired, identifiers supplied by the caller -/
 
-def isEarly : Ev → Bool
-  | .apiEarlyAck _ _ => true
-  | _ => false
-
-/-- a history without the ack-before-registration interleaving -/
-def noEarly (evs : List Ev) : Bool := evs.all (fun ev => !isEarly ev)
-
 /-- the completion tags the model fires while it processes a terminal acknowledgement of kind `k` -/
 def stepFired (k : Kind) (c : C) : Ev → List Nat
   | .peer p => if (termId k p).isSome then doneTags (step c (.peer p)).2 else []
+  | .apiEarlyAck call ack =>
+    if (termId k ack).isSome then doneTags (step (step c (.api call)).1 (.peer ack)).2 else []
   | _ => []
 
 def fired (k : Kind) (c : C) : List Ev → List Nat
   | [] => []
   | ev :: evs => stepFired k c ev ++ fired k (step c ev).1 evs
 
-theorem stepFired_eq (k : Kind) (c : C) (ev : Ev) (he : isEarly ev = false) :
+theorem stepFired_eq_basic (k : Kind) (c : C) (ev : Ev) (he : isEarly ev = false) :
     stepFired k c ev = nz ((stepReleased k c ev).map (·.tag)) := by
   cases ev with
   | peer p =>
@@ -456,25 +476,41 @@ theorem stepFired_eq (k : Kind) (c : C) (ev : Ev) (he : isEarly ev = false) :
   | apiEarlyAck call ack => simp [isEarly] at he
   | _ => simp [stepFired, stepReleased, nz]
 
-theorem fired_eq (k : Kind) (c : C) (evs : List Ev) (he : noEarly evs = true) :
+theorem stepFired_eq (k : Kind) (c : C) (ev : Ev) :
+    stepFired k c ev = nz ((stepReleased k c ev).map (·.tag)) := by
+  cases ev with
+  | apiEarlyAck call ack =>
+    have h := stepFired_eq_basic k (step c (.api call)).1 (.peer ack) rfl
+    simp only [stepFired, stepReleased] at h ⊢
+    by_cases hc : c.connected = true
+    · rw [step_connected c (.api call) hc] at h
+      simpa only [hc, ↓reduceIte] using h
+    · have hc' : c.connected = false := by simpa using hc
+      have h1 : (step c (.api call)).1 = c := by simp [step, hc']
+      have h2 : (step c (.peer ack)).2 = [] := by simp [step, hc']
+      simp [h1, h2, hc', doneTags, nz]
+  | connect a => exact stepFired_eq_basic k c _ rfl
+  | api call => exact stepFired_eq_basic k c _ rfl
+  | peer p => exact stepFired_eq_basic k c _ rfl
+
+theorem fired_eq (k : Kind) (c : C) (evs : List Ev) :
     fired k c evs = nz ((released k c evs).map (·.tag)) := by
   induction evs generalizing c with
   | nil => rfl
   | cons ev evs ih =>
-    simp only [noEarly, List.all_cons, Bool.and_eq_true, Bool.not_eq_true'] at he
     simp only [fired, released, List.map_append, nz_append]
-    rw [stepFired_eq k c ev he.1, ih _ he.2]
+    rw [stepFired_eq k c ev, ih _]
 
 theorem map_key_tag (l : List Req) : (l.map key).map (fun x => x.2.1) = l.map (·.tag) := by
   simp [key, List.map_map, Function.comp_def]
 
 /-- tags version of `run_conservation` -/
-theorem run_conservation_tags (k : Kind) (c : C) (evs : List Ev) (he : noEarly evs = true) :
+theorem run_conservation_tags (k : Kind) (c : C) (evs : List Ev) :
     fired k c evs ++ nz ((queue k (runState c evs)).map (·.tag)) =
       nz ((queue k c).map (·.tag)) ++ nz ((accepted k c evs).map (·.tag)) := by
   have := congrArg (fun l => nz (l.map (fun x => x.2.1))) (run_conservation k c evs)
   simp only [List.map_append, map_key_tag, nz_append] at this
-  rw [fired_eq k c evs he]
+  rw [fired_eq k c evs]
   exact this
 
 /-- kind, identifier and completion tag under which an API call asks to be registered -/
@@ -486,7 +522,7 @@ def callReq : Api → Option (Kind × Nat × Nat)
 
 /-- the call supplies an identifier that is non-zero and not in flight in its queue -/
 def freshStep (c : C) : Ev → Bool
-  | .api call =>
+  | .api call | .apiEarlyAck call _ =>
     match callReq call with
     | some (k, id, _) => id != 0 && !(queue k c).any (fun e => e.id == id)
     | none => true
@@ -500,6 +536,10 @@ def Fresh (c : C) : List Ev → Bool
 def requestedTags (k : Kind) : List Ev → List Nat
   | [] => []
   | .api call :: evs =>
+    (match callReq call with
+     | some (k', _, tag) => if k' = k then [tag] else []
+     | none => []) ++ requestedTags k evs
+  | .apiEarlyAck call _ :: evs =>
     (match callReq call with
      | some (k', _, tag) => if k' = k then [tag] else []
      | none => []) ++ requestedTags k evs
@@ -568,19 +608,22 @@ theorem stepAccepted_fresh (k : Kind) (c : C) (call : Api) (hc : c.connected = t
     simp only
     split <;> rfl
 
-theorem accepted_fresh (k : Kind) (c : C) (evs : List Ev) (hc : c.connected = true) (he : noEarly evs = true)
+theorem accepted_fresh (k : Kind) (c : C) (evs : List Ev) (hc : c.connected = true)
     (hf : Fresh c evs = true) : (accepted k c evs).map (·.tag) = requestedTags k evs := by
   induction evs generalizing c with
   | nil => rfl
   | cons ev evs ih =>
-    simp only [noEarly, List.all_cons, Bool.and_eq_true, Bool.not_eq_true'] at he
     simp only [Fresh, Bool.and_eq_true] at hf
-    have ih' := ih (step c ev).1 (step_connected c ev hc) (by simpa [noEarly] using he.2) hf.2
+    have ih' := ih (step c ev).1 (step_connected c ev hc) hf.2
     cases ev with
     | api call =>
       simp only [accepted, requestedTags, List.map_append, ih']
       rw [stepAccepted_fresh k c call hc hf.1]
-    | apiEarlyAck call ack => simp [isEarly] at he
+    | apiEarlyAck call ack =>
+      simp only [accepted, requestedTags, List.map_append, ih']
+      have := stepAccepted_fresh k c call hc hf.1
+      simp only [stepAccepted] at this ⊢
+      rw [this]
     | connect a => simp only [accepted, requestedTags, stepAccepted, List.nil_append, ih']
     | peer p => simp only [accepted, requestedTags, stepAccepted, List.nil_append, ih']
 
@@ -762,7 +805,7 @@ theorem eager_step (c : C) (ev : Ev) (h : Eager c) : Eager (step c ev).1 := by
     | peer p => rw [step_peer c hc]; exact eager_peer _ _ h
     | apiEarlyAck call ack =>
       simp only [step, hc, Bool.not_true, Bool.false_eq_true, ↓reduceIte]
-      exact eager_apiRegister _ _ (eager_peer _ _ (eager_apiWrite _ _ h))
+      exact eager_peer _ _ (eager_apiRegister _ _ (eager_apiWrite _ _ h))
   · have hc' : c.connected = false := by simpa using hc
     cases ev with
     | connect a =>
@@ -874,10 +917,11 @@ theorem step_terminal_origin (k : Kind) (c : C) (ev : Ev) (r : Req) (hr : r ∈ 
       exact peer_terminal_origin k c p r hr ht
     | apiEarlyAck call ack =>
       simp only [step, hc, Bool.not_true, Bool.false_eq_true, ↓reduceIte] at hr
-      have h1 := apiRegister_terminal_origin k _ _ r hr ht
-      have h2 := peer_terminal_origin k _ ack r h1 ht
-      rw [apiWrite_queue] at h2
-      exact h2
+      rcases peer_terminal_origin k _ ack r hr ht with ⟨r0, hr0, hk, hs⟩ | h2
+      · have h1 := apiRegister_terminal_origin k _ _ r0 hr0 (by rw [hs]; exact ht)
+        rw [apiWrite_queue] at h1
+        exact Or.inl ⟨r0, h1, hk, hs⟩
+      · exact Or.inr h2
   · have hc' : c.connected = false := by simpa using hc
     left
     refine ⟨r, ?_, rfl, rfl⟩
@@ -899,6 +943,7 @@ def pingTags (c : C) : List Nat := c.pings.map (·.2)
 
 def pingFiredStep (c : C) : Ev → List Nat
   | .peer .pingresp => doneTags (step c (.peer .pingresp)).2
+  | .apiEarlyAck call .pingresp => doneTags (step (step c (.api call)).1 (.peer .pingresp)).2
   | _ => []
 
 def pingFired (c : C) : List Ev → List Nat
@@ -908,6 +953,7 @@ def pingFired (c : C) : List Ev → List Nat
 def pingRequested : List Ev → List Nat
   | [] => []
   | .api (.ping tag) :: evs => tag :: pingRequested evs
+  | .apiEarlyAck (.ping tag) _ :: evs => tag :: pingRequested evs
   | _ :: evs => pingRequested evs
 
 theorem pingAck_tags (l : List (Nat × Nat)) : (pingAck l).map (·.2) = l.map (·.2) := by
@@ -992,7 +1038,7 @@ theorem connect_pings (c : C) (a : Answer) : (connect c a).1.pings = c.pings := 
 /-- one event: the completions fired by a PINGRESP followed by the pings still in flight are the
 pings that were in flight followed by the ping the event requests - for *every* number of
 outstanding pings -/
-theorem step_ping_conservation (c : C) (ev : Ev) (hc : c.connected = true) (he : isEarly ev = false) :
+theorem step_ping_conservation_basic (c : C) (ev : Ev) (hc : c.connected = true) (he : isEarly ev = false) :
     pingFiredStep c ev ++ nz (pingTags (step c ev).1) =
       nz (pingTags c) ++ nz (pingRequested [ev]) := by
   cases ev with
@@ -1027,20 +1073,43 @@ theorem step_ping_conservation (c : C) (ev : Ev) (hc : c.connected = true) (he :
       simp [hf, pingRequested, pingTags, this, nz]
   | apiEarlyAck call ack => simp [isEarly] at he
 
+/-- … the composite event included: the call, then the packet -/
+theorem step_ping_conservation (c : C) (ev : Ev) (hc : c.connected = true) :
+    pingFiredStep c ev ++ nz (pingTags (step c ev).1) =
+      nz (pingTags c) ++ nz (pingRequested [ev]) := by
+  cases ev with
+  | apiEarlyAck call ack =>
+    have hc1 : (step c (.api call)).1.connected = true := step_connected c (.api call) hc
+    have h1 := step_ping_conservation_basic c (.api call) hc rfl
+    have h2 := step_ping_conservation_basic (step c (.api call)).1 (.peer ack) hc1 rfl
+    have hf1 : pingFiredStep c (.api call) = [] := rfl
+    have hr2 : pingRequested [Ev.peer ack] = [] := rfl
+    have hfe : pingFiredStep c (.apiEarlyAck call ack) = pingFiredStep (step c (.api call)).1 (.peer ack) := by
+      cases ack <;> rfl
+    have hre : pingRequested [Ev.apiEarlyAck call ack] = pingRequested [Ev.api call] := by
+      cases call <;> rfl
+    rw [hf1, List.nil_append] at h1
+    rw [hr2] at h2
+    rw [step_early, hfe, hre, h2, h1]
+    simp [nz]
+  | connect a => exact step_ping_conservation_basic c _ hc rfl
+  | api call => exact step_ping_conservation_basic c _ hc rfl
+  | peer p => exact step_ping_conservation_basic c _ hc rfl
+
 theorem pingRequested_cons (ev : Ev) (evs : List Ev) :
     pingRequested (ev :: evs) = pingRequested [ev] ++ pingRequested evs := by
   cases ev with
   | api call => cases call <;> rfl
+  | apiEarlyAck call ack => cases call <;> rfl
   | _ => rfl
 
-theorem run_ping_conservation (c : C) (evs : List Ev) (hc : c.connected = true) (he : noEarly evs = true) :
+theorem run_ping_conservation (c : C) (evs : List Ev) (hc : c.connected = true) :
     pingFired c evs ++ nz (pingTags (runState c evs)) = nz (pingTags c) ++ nz (pingRequested evs) := by
   induction evs generalizing c with
   | nil => simp [pingFired, pingRequested, runState, nz]
   | cons ev evs ih =>
-    simp only [noEarly, List.all_cons, Bool.and_eq_true, Bool.not_eq_true'] at he
-    have h1 := step_ping_conservation c ev hc he.1
-    have h2 := ih (step c ev).1 (step_connected c ev hc) (by simpa [noEarly] using he.2)
+    have h1 := step_ping_conservation c ev hc
+    have h2 := ih (step c ev).1 (step_connected c ev hc)
     rw [runState_cons, pingRequested_cons]
     simp only [pingFired, nz_append, List.append_assoc]
     rw [h2, ← List.append_assoc, h1, List.append_assoc]
@@ -1112,7 +1181,7 @@ theorem pingsWaiting_step (c : C) (ev : Ev) (h : PingsWaiting c) : PingsWaiting 
     simp only [step]
     split
     · exact h
-    · exact apiRegister_pingsWaiting _ _ (peer_pingsWaiting _ ack (apiWrite_pingsWaiting c call h))
+    · exact peer_pingsWaiting _ ack (apiRegister_pingsWaiting _ _ (apiWrite_pingsWaiting c call h))
 
 theorem pingsWaiting_run (c : C) (evs : List Ev) (h : PingsWaiting c) : PingsWaiting (runState c evs) := by
   induction evs generalizing c with
@@ -1414,7 +1483,7 @@ theorem idsNodup_step (c : C) (ev : Ev) (h : IdsNodup c) : IdsNodup (step c ev).
     | peer p => rw [step_peer c hc]; exact idsNodup_peer _ _ h
     | apiEarlyAck call ack =>
       simp only [step, hc, Bool.not_true, Bool.false_eq_true, ↓reduceIte]
-      exact idsNodup_apiRegister _ _ (idsNodup_peer _ _ (idsNodup_apiWrite _ _ h))
+      exact idsNodup_peer _ _ (idsNodup_apiRegister _ _ (idsNodup_apiWrite _ _ h))
   · have hc' : c.connected = false := by simpa using hc
     cases ev with
     | connect a =>
@@ -1473,7 +1542,8 @@ theorem idsNonzero_api (c : C) (call : Api) (h : IdsNonzero c)
 theorem idsNonzero_init : IdsNonzero init := by
   intro k e he; cases k <;> simp [init, queue] at he
 
-theorem idsNonzero_step (c : C) (ev : Ev) (h : IdsNonzero c) : IdsNonzero (step c ev).1 := by
+theorem idsNonzero_step_basic (c : C) (ev : Ev) (he : isEarly ev = false) (h : IdsNonzero c) :
+    IdsNonzero (step c ev).1 := by
   by_cases hc : c.connected = true
   · cases ev with
     | connect a =>
@@ -1490,39 +1560,7 @@ theorem idsNonzero_step (c : C) (ev : Ev) (h : IdsNonzero c) : IdsNonzero (step 
       intro k id tag _
       exact assigned_ne_zero c id
     | peer p => rw [step_peer c hc]; exact idsNonzero_peer _ _ h
-    | apiEarlyAck call ack =>
-      simp only [step, hc, Bool.not_true, Bool.false_eq_true, ↓reduceIte]
-      have h1 : IdsNonzero (peer (apiWrite c call).1 ack).1 := by
-        apply idsNonzero_peer
-        intro k e he
-        rw [apiWrite_queue] at he
-        exact h k e he
-      intro k e he
-      rw [apiRegister_queue, List.mem_append] at he
-      rcases he with he | he
-      · exact h1 k e he
-      · obtain ⟨⟨tag, hreq⟩, _⟩ := regAccepted_ids k _ _ e he
-        cases hcr : callReq call with
-        | none =>
-          exfalso
-          cases call with
-          | publish p tag' =>
-            simp only [callReq] at hcr
-            by_cases h0 : (p.qos == 0) = true
-            · simp [apiWrite, h0, callReq] at hreq
-            · have h0' : (p.qos == 0) = false := by simpa using h0
-              simp only [h0', Bool.false_eq_true, ↓reduceIte] at hcr
-              split at hcr <;> cases hcr
-          | subscribe id' topics tag' cb => cases hcr
-          | unsubscribe id' topics tag' => cases hcr
-          | ping tag' => simp [apiWrite, callReq] at hreq
-        | some x =>
-          obtain ⟨k', id, tag'⟩ := x
-          have := (apiWrite_ids c call k' id tag' hcr).2
-          rw [this] at hreq
-          simp only [Option.some.injEq, Prod.mk.injEq] at hreq
-          rw [← hreq.2.1]
-          exact assigned_ne_zero c id
+    | apiEarlyAck call ack => simp [isEarly] at he
   · have hc' : c.connected = false := by simpa using hc
     cases ev with
     | connect a =>
@@ -1534,6 +1572,9 @@ theorem idsNonzero_step (c : C) (ev : Ev) (h : IdsNonzero c) : IdsNonzero (step 
         · exact h
       | _ => exact h
     | _ => simp only [step, hc', Bool.not_false, ↓reduceIte]; exact h
+
+theorem idsNonzero_step (c : C) (ev : Ev) (h : IdsNonzero c) : IdsNonzero (step c ev).1 :=
+  step_inv_of_basic idsNonzero_step_basic c ev h
 
 theorem idsNonzero_run (c : C) (evs : List Ev) (h : IdsNonzero c) : IdsNonzero (runState c evs) := by
   induction evs generalizing c with
@@ -1568,5 +1609,50 @@ theorem step_api_written (c : C) (hc : c.connected = true) (call : Api) (k : Kin
     rw [h2] at hreq
     simp only [Option.some.injEq, Prod.mk.injEq] at hreq
     exact hreq.2.1.symm
+
+/-! ### the acknowledgement inside the window (E5 repaired) -/
+
+theorem apiWrite_doneTags (c : C) (call : Api) : doneTags (apiWrite c call).2.1 = [] := by
+  cases call with
+  | publish p tag => simp only [apiWrite]; split <;> rfl
+  | _ => rfl
+
+/-- a call that registers a request fires no completion itself -/
+theorem api_doneTags_nil (c : C) (hc : c.connected = true) (call : Api) (k : Kind) (id tag : Nat)
+    (h : callReq call = some (k, id, tag)) : doneTags (step c (.api call)).2 = [] := by
+  rw [step_api c hc, doneTags_append, apiWrite_doneTags,
+    apiRegister_out_nil _ _ k _ tag (apiWrite_ids c call k id tag h).2]
+  rfl
+
+/-- the other interleaving: the terminal acknowledgement arrives between the write and the
+registration - it waits for the registration (`service.ackmu`) and completes the request -/
+theorem completes_in_window (c : C) (call : Api) (k : Kind) (id tag : Nat) (ack : Packet)
+    (hc : c.connected = true) (hreq : callReq call = some (k, id, tag)) (hid : id ≠ 0)
+    (hq : queue k c = []) (ht : termId k ack = some id) :
+    doneTags (step c (.apiEarlyAck call ack)).2 = nz [tag] := by
+  rw [step_early, doneTags_append, api_doneTags_nil c hc call k id tag hreq, List.nil_append]
+  exact completes_after_return c call k id tag ack hc hreq hid hq ht
+
+/-- … and takes it out of its queue: nothing is left that a later acknowledgement could complete again -/
+theorem completes_in_window_queue (c : C) (call : Api) (k : Kind) (id tag : Nat) (ack : Packet)
+    (hc : c.connected = true) (hreq : callReq call = some (k, id, tag)) (hid : id ≠ 0) (htag : tag ≠ 0)
+    (hq : queue k c = []) (ht : termId k ack = some id) :
+    queue k (step c (.apiEarlyAck call ack)).1 = [] := by
+  have hf : freshStep c (.api call) = true := by simp [freshStep, hreq, hq, hid]
+  have hacc := congrArg List.length (stepAccepted_fresh_id k c call hc hf)
+  simp only [hreq, ↓reduceIte, List.length_map, List.length_cons, List.length_nil] at hacc
+  have hcons := congrArg List.length (step_conservation k c (.apiEarlyAck call ack))
+  have hacc' : (stepAccepted k c (.apiEarlyAck call ack)).length = 1 := hacc
+  simp only [List.length_map, List.length_append, hq, List.length_nil, hacc'] at hcons
+  have hfire : stepFired k c (.apiEarlyAck call ack) = [tag] := by
+    simp only [stepFired, ht, Option.isSome_some, ↓reduceIte]
+    rw [completes_after_return c call k id tag ack hc hreq hid hq ht]
+    simp [nz, htag]
+  rw [stepFired_eq] at hfire
+  have hrel : (stepReleased k c (.apiEarlyAck call ack)).length ≠ 0 := by
+    intro h0
+    rw [List.length_eq_zero_iff.mp h0] at hfire
+    simp [nz] at hfire
+  exact List.length_eq_zero_iff.mp (by omega)
 
 end Mqtt.Proofs.Client
